@@ -483,12 +483,13 @@ def pastified_stream(ctx, rng, count):
 # (a bounded past operator with a positive lower bound - written, or the once[h,h] the pastifier inserts - next to an operand
 # that starts with the input).  On signals starting at 0 that cannot happen (the bounded operations take 0 as the start, F37);
 # on signals starting later, case 1 of the online intersection left the float nan as pending sample: the operation returned
-# [nan] and the next update() raised TypeError when the operands came at different paces in several updates (repaired in /repo
-# by 29f12b4; trees older than that commit still raise).  Witness: out = (y >= once[0.5,1.5](x <= 2.0)),
+# [nan] and the next update() raised TypeError when the operands came at different paces in several updates (finding F62,
+# repaired in /repo by 29f12b4; trees older than that commit - the seeded worktrees, /tmp/wt/clean at fd69ebf - still raise; on
+# 29f12b4 the stream is quiet with SHIFTED_ALIGNED_ONLY = False as well: 6 seeds x 500 cases).  Witness: out = (y >= once[0.5,1.5](x <= 2.0)),
 # x = (5,1)(5.5,1)(5.625,0)(6.25,1), y = (5,0)(5.25,-0.5)(6.25,4), updates cut at 5.25, 5.5, 5.625, 6.25.
 # ---------------------------------------------------------------------------------------------------------------------------
 SHIFT = Fraction(2 ** 30)
-SHIFTED_ALIGNED_ONLY = True
+SHIFTED_ALIGNED_ONLY = False
 
 
 def shift_signals(sig, by=SHIFT):
